@@ -820,8 +820,11 @@ where
             }
         }
 
-        // Graph is reducible iff the FE graph is acyclic and every node is reachable from head.
-        let every_node_is_reachable = fe_graph.unreachable_vertices(head)?.is_empty();
+        // Graph is reducible iff the FE graph is acyclic and every node reachable
+        // from head stays reachable from head. Nodes that are not part of the
+        // flow graph rooted at head are not taken into account.
+        let every_node_is_reachable =
+            fe_graph.unreachable_vertices(head)? == self.unreachable_vertices(head)?;
         Ok(every_node_is_reachable && fe_graph.is_acyclic(head))
     }
 
